@@ -116,6 +116,30 @@ static void check_document(cs::Ctx& ctx, cs::Src* s, JsonDocument& doc, bool all
     CustomWriter w;
     r2 = serializeMsgPack(v, w);
     if (w.out != T || r2 != T.size()) ctx.fail("custom-writer", "custom writer received different bytes or count");
+    {
+      struct BudgetWriter {
+        std::string out;
+        size_t budget;
+        size_t write(uint8_t c) {
+          if (out.size() >= budget) return 0;
+          out += (char)c;
+          return 1;
+        }
+        size_t write(const uint8_t* p, size_t n) {
+          size_t room = budget - out.size();
+          if (n > room) n = room;
+          out.append(reinterpret_cast<const char*>(p), n);
+          return n;
+        }
+      } bw;
+      bw.budget = T.size() / 2 + (T.size() % 3);
+      r2 = serializeMsgPack(v, bw);
+      size_t want = bw.budget < T.size() ? bw.budget : T.size();
+      if (bw.out != T.substr(0, want) || r2 != want) ctx.fail("custom-writer", "writer with a byte budget: stored bytes or returned count wrong");
+      JsonVariantConst unbound;
+      std::string tu;
+      if (serializeMsgPack(unbound, tu) != 1 || tu != "\xC0" || measureMsgPack(unbound) != 1) ctx.fail("unbound-source", "unbound source does not serialize/measure as nil");
+    }
 #if ARDUINOJSON_ENABLE_ARDUINO_PRINT
     MyPrint p;
     r2 = serializeMsgPack(v, p);
@@ -203,6 +227,9 @@ static void add_binext(Val& v, cs::Src& s) {
 
 static void run_case(cs::Src& s, cs::Ctx& ctx) {
   ctx.evaluations++;
+#if !ARDUINOJSON_USE_LONG_LONG
+  gen::clamp_int32() = true;  // LP64 host: keep integers within what a 32-bit-integer target can express
+#endif
   if (s.chance(1, 5)) {
     // a document reached through a model-checked API history
     hist::Options ho;
